@@ -99,6 +99,9 @@ def parse_call(msg):
     if not m:
         return None
     what, fn, rest = m.group(1), m.group(2), m.group(3)
+    k = rest.find(") with crosshair.patch_to_return(")
+    if k >= 0:  # nondeterministic library calls (random, time) recorded by CrossHair; the harness result must not depend on them
+        rest = rest[: k + 1]
     k = rest.rfind(" (which returns ")
     if k >= 0:
         rest = rest[:k]
